@@ -78,6 +78,15 @@ def suite_removals(rng, tier, flavour):       # C09
     yield from _api(rng, tier, flavour, {"write": 4, "write_hash": 1, "stream": 1, "lookup": 4, "remove": 5, "insert": 1},
                     200, 2000, length=(8, 30))
 
+def suite_layouts(rng, tier, flavour):        # C15 / C09: the cache path is a symlink, or a relative path with ".." after a symlink
+    n = 60 if tier == "quick" else 600
+    for i in range(n):
+        p = gen.api_program(rng, flavour, rng.randrange(6, 16), {"write": 4, "write_hash": 1, "stream": 2, "stream_drop": 1, "lookup": 4, "remove": 3, "extract": 1}, hostile=0.2)
+        if rng.random() < 0.5:
+            p.insert(rng.randrange(len(p) // 2, len(p)), {"op": "clear", "fl": gen.pick_fl(rng, flavour)})
+            p.append({"op": "list"})
+        yield (p, [flavour], {"layout": "symlink" if i % 2 else "dotdot"})
+
 def suite_abandon(rng, tier, flavour):        # C14
     yield from _api(rng, tier, flavour, {"write": 2, "stream": 3, "stream_drop": 4, "stream_leave": 1, "lookup": 4, "remove": 1},
                     200, 2000, big_every=70)
@@ -153,7 +162,7 @@ REGISTRY = {
             "rule": "strace kill sweep over keyed writes, overwrites (multi-byte UTF-8 metadata; after a long history: bucket > 64 KiB), rejected commits and tombstone removals: SIGKILL on entry to every mutating system call, the index append torn at EVERY byte length; on each surviving directory a fresh process looks the key up (previous or new entry, never a mixture; new entry => its data reads back), every other key unchanged, then writes the key again and reads it back; the tree is one of the model's crash states."},
     "C13": {"flavours": Q3, "suites": [], "step_suites": [("fault", steps.suite_fault), ("retry", steps.suite_fault_retry)],
             "rule": "strace fault sweep: every system call (open/read/write/mkdir/rename/unlink/link/stat/getdents/...) that names a path inside the cache during write, write_hash, streamed open/chunk/commit, read, read_hash, metadata, copy, remove, remove_hash, list is made to fail once with EIO / ENOSPC (thorough: + EACCES, EMFILE); the call must answer an error or a truthful success (written data reads back, reads return the stored bytes, metadata/list do not silently lose entries), never panic/hang/die; afterwards content files hash to their paths, unnamed entries are unchanged (a temp file left by a failed call is counted, not alarmed on: the property names the content and index areas only); and the same call issued again without the fault succeeds."},
-    "C15": {"flavours": Q3, "suites": [], "step_suites": [("confine", steps.suite_confine)],
+    "C15": {"flavours": Q3, "suites": [("layouts", suite_layouts)], "step_suites": [("confine", steps.suite_confine)],
             "rule": "strace path audit: for hostile / confusable / random Unicode keys a 25-call program covering every kind of operation is traced; every mutating system call must name paths inside the cache root (extractions: or their destination), read-only calls must issue no mutating system call, path components under the cache are never empty, '.', '..' or contain NUL, components under index-v5 are hex, content files are never opened for writing in place, the working directory is untouched."},
     "C11": {"flavours": Q3, "suites": [("meta", suite_meta), ("commit", suite_commit)],
             "rule": "several writes to one key with fields (data, time incl. 2^128-1, JSON metadata trees, raw bytes, declared size, single/multi-hash integrity) drawn from small pools so that successive records differ in one field or repeat earlier values, via streamed writers and index::insert, read back by metadata/find/list after each; bucket bytes compared byte for byte (explicit times); default time checked against the call's wall-clock window."},
@@ -165,7 +174,7 @@ REGISTRY = {
             "rule": "random programs of writes through every entry point (one-shot, streamed with random chunkings incl. empty/single-byte/decreasing, keyed and by address, with/without declared size, five algorithms, small/hostile keys, sizes 0..16 KiB+1 and occasionally 1 MiB-1/0/+1 and 3 MiB) each followed by reads by key, by address, streamed reads and metadata."},
     "C08": {"flavours": Q3, "suites": [("commit", suite_commit)],
             "rule": "streamed writers with declared size smaller/equal/larger and declared integrity correct/wrong/other-algorithm/multi-hash, keyed and by address, prior key states absent/present/removed, followed by lookups."},
-    "C09": {"flavours": Q3, "suites": [("removals", suite_removals)],
+    "C09": {"flavours": Q3, "suites": [("removals", suite_removals), ("layouts", suite_layouts)],
             "rule": "histories mixing writes with remove, remove_hash, remove_fully, clear over small and hostile keys (keys sharing content included), lookups of every known key/address and the listing afterwards."},
     "C14": {"flavours": Q3, "suites": [("abandon", suite_abandon), ("cancel", suite_cancel), ("late_commit", suite_late_commit)],
             "rule": "writers dropped after creation / after some chunks / after a rejected commit, or left open, interleaved with successful operations; plus async writers whose writes are cancelled while the background task is in flight (started, polled once, dropped) before further chunks and commit; lookups, listing, and the final tree (including tmp/) compared."},
